@@ -277,6 +277,29 @@ fn observe(ev: &mut Ev, dir: &Path, c: &Case12) -> CaseResult {
     ev.count(if link { "file-on-disk/symlink-to-regular-file" } else { "file-on-disk/regular-file" });
     let full = path.as_os_str().as_bytes().to_vec();
 
+    // Under which name the file is recorded: as generated (relative, possibly
+    // below DIST_SUBDIR directories) or - one case in eight - under the very
+    // path it is looked up by (the whole path is its own last trailing
+    // sub-path).
+    let absolute = crate::rng::hash_strs(&[b"abs", &c.rel, c.label.as_bytes()]) % 8 == 0
+        && full.first() == Some(&b'/')
+        && !full.iter().any(|b| b.is_ascii_whitespace())
+        && c.recs.iter().filter(|r| r.name == c.rel).count() == 1;
+    let owned: Case12;
+    let c: &Case12 = if absolute {
+        let mut m = c.clone();
+        for r in m.recs.iter_mut() {
+            if r.name == c.rel {
+                r.name = full.clone();
+            }
+        }
+        owned = m;
+        &owned
+    } else {
+        c
+    };
+    ev.count(if absolute { "recorded-name/the-absolute-lookup-path" } else { "recorded-name/relative" });
+
     // ---- oracle ----
     let lookup_kind = classify(last_component(&c.rel)).unwrap_or(Kind::Dist);
     let cands: Vec<&Rec> = c.recs.iter().filter(|r| r.kind == lookup_kind).collect();
@@ -820,6 +843,7 @@ pub fn run(cx: &mut Cx) {
         cx.ev.require("file-on-disk/symlink-to-regular-file");
     }
     for k in [
+        "recorded-name/the-absolute-lookup-path",
         "file-on-disk/regular-file",
         "built/api",
         "built/parsed",
